@@ -1200,7 +1200,9 @@ func c07(r *core.Run) {
 			if w := core.Requires(f, core.IsReturn, core.Not(core.BoolVal(selectRecvOk(sel)))); w != nil {
 				o.Fail(p.InstrPos(w), "ForEach can return while mappers are still running")
 			}
-			k := stateOf(sel, func(st *ssa.SelectState) bool { return st.Dir == types.RecvOnly && strings.HasPrefix(chanID(st.Chan), "make:") })
+			k := stateOf(sel, func(st *ssa.SelectState) bool {
+				return st.Dir == types.RecvOnly && strings.HasPrefix(chanID(st.Chan), "make:")
+			})
 			if k < 0 {
 				o.Fail(p.InstrPos(sel), "ForEach does not wait on its collector")
 				continue
